@@ -23,7 +23,7 @@ EXPLANATION = (
     "(a boundary equal to 0.0 is a value like any other)."
 )
 NOT_DECIDED = "the invariance itself on data (numerical equality of partitions); ties between equal target rates of categories"
-FLOORS = {"R-order-only": 4, "R-order-statistic": 3, "R-label-injective": 1, "R-aligned-pairs": 4, "R-index-kept": 1, "R-row-order-free": 2, "R-adjacency-order": 3, "R-viability-formula": 1, "R-leader-is-max": 1, "R-value-truthiness": 1}
+FLOORS = {"R-nan-aware-lookup": 3, "R-order-only": 4, "R-order-statistic": 4, "R-label-injective": 1, "R-aligned-pairs": 4, "R-index-kept": 1, "R-row-order-free": 2, "R-adjacency-order": 3, "R-viability-formula": 1, "R-leader-is-max": 1, "R-value-truthiness": 1}
 
 
 def check(ctx):
@@ -40,6 +40,9 @@ def check(ctx):
     carver.check_viability_formula(ctx, "R-viability-formula")
     quant.check_leader_is_max(ctx, "R-leader-is-max")
     check_or_default(ctx, "R-value-truthiness", [f for f in ctx.repo.all_functions() if "/selectors/" not in f.module.relpath])
+    from . import c13
+
+    c13.rule_nan_aware(ctx)  # value identity is exact equality: a tolerance depends on the scale of the feature
 
 
 MUTANTS = [
